@@ -106,6 +106,20 @@ def scenarios(tier):
                 scn = wfscn.ProgScenario('enum%d.%d/%s' % (n, i, tag), prog,
                                          results=res)
                 jobs.append((scn, None, 60 if quick else 900, 1, ai + 0.7))
+    # reverse workflows: every requires-graph over <= 3 tasks x every target
+    # (with and without a requirement from task-defaults)
+    for name, (prog, target) in wfgen.reverse_shapes(3).items():
+        assigns = wfgen.result_assignments(prog)
+        if quick and len(assigns) > 4:
+            keys = wfgen.action_keys(prog)
+            assigns = [{k: ['S'] for k in keys}] + [
+                {x: ['E' if x == k else 'S'] for x in keys} for k in keys]
+        for ai, res in enumerate(assigns):
+            tag = ''.join(res[k][0] for k in sorted(res))
+            scn = wfscn.ProgScenario('%s/%s' % (name, tag), prog,
+                                     results=res,
+                                     params={'task_name': target})
+            jobs.append((scn, None, 60 if quick else 900, 1, ai + 0.75))
     # every pair of language features on one task of a small skeleton
     for name, (prog, assigns) in wfgen.feature_pairs().items():
         for ai, res in enumerate(assigns):
@@ -143,7 +157,7 @@ def main(tier):
         'probability negligible)',
     ]
     return rep.finish(
-        rule='curated direct-workflow programs (incl. bounded cycles) + every direct DAG shape over <= 3 tasks + every pair of 14 language features on one task of a 4-task skeleton x action-result assignments; '
+        rule='curated direct-workflow programs (incl. bounded cycles) + every direct DAG shape over <= 3 tasks + every requires-graph over <= 3 tasks x target (reverse workflows) + every pair of 14 language features on one task of a 4-task skeleton x action-result assignments; '
              'DFS over interleavings of message deliveries, post-commit '
              'operations and scheduler steps on the real engine; a state is '
              'the canonical DB image + pending messages + suspended '
